@@ -100,7 +100,7 @@ def _build_crd_ref(crd_ref_spec: dict) -> structure.ConfigCRDRef | None:
 
 
 PARENT_NAME_PATTERN = re.compile(r"parent.(?P<name>.*)")
-STEPS_NAME_PATTERN = re.compile(r"steps.(?P<name>[^.[]+)?\[?.*")
+STEPS_NAME_PATTERN = re.compile(r"steps.(?P<name>[^.[]+)")
 
 
 LogicRegistryResource = registry.Resource[
